@@ -185,9 +185,16 @@ def run(ctx: Ctx) -> None:
     pool = ThreadPoolExecutor(max_workers=1 if ctx.quick else 4)
     futures = [pool.submit(search_run, sp_) for sp_ in specs]
     q = ctx.quick
-    ctx.design("Fitness", "Fitness.cfg" if q else "Fitness_thorough.cfg",
-               coverage_actions=["ExecutedCodeObject", "ExecutedPredicate", "TrackLineVisit", "CheckedLine"])
+    design = ctx.design("Fitness", "Fitness.cfg" if q else "Fitness_thorough.cfg",
+                        coverage_actions=["ExecutedCodeObject", "ExecutedPredicate", "TrackLineVisit", "CheckedLine"])
     groups = ctx.behaviours("MC_Fitness", "MC_Fitness.cfg" if q else "MC_Fitness_thorough.cfg")
+    # the traces replayed on the real code are exactly the traces on which TLC checked the laws
+    n_traces = sum(len(g["traces"]) for g in groups)
+    ctx.notes["abstract_traces_enumerated"] = n_traces
+    ctx.notes["design_reachable_traces"] = design.distinct
+    if design.distinct != n_traces:
+        raise MachineryError(f"Fitness.tla reaches {design.distinct} traces but MC_Fitness enumerates {n_traces}: "
+                             "the bounds of the two cfg files are out of sync")
     jobs, origin = [], []
     for g in groups:
         exs = order_exs(g["exs"])
